@@ -20,6 +20,7 @@ import numpy as np
 
 from . import c05_synth as S
 from .common import fr, quiet_fd, same
+from .translate_c05 import gen_bounds_kernel
 
 NAN = float("nan")
 INF = float("inf")
@@ -907,7 +908,7 @@ def run(c):
         "io_mixin bounds are exercised by C14 (known candidate F5 belongs there)",
         "nominals are positive; NaN-valued bounds and custom `discretize_control(s)` overrides are outside the model",
     ]
-    c.prove()
+    c.prove(extra=gen_bounds_kernel(c))  # + the per-variable bound / seed kernels translated from the source
     rng = c.rng
     # corpus first
     insts = [copy.deepcopy(x) for x in CORPUS]
@@ -940,7 +941,7 @@ def run(c):
 
 
 def replay(c, rp):
-    c.prove()
+    c.prove(extra=gen_bounds_kernel(c))  # + the per-variable bound / seed kernels translated from the source
     items = rp.get("failures", []) + rp.get("correspondence_disagreements", [])
     insts = [f["case"] for f in items if isinstance(f.get("case"), dict) and "vars" in f["case"]]
     for i in insts:  # replay files store floats as JSON (inf/nan as strings)
